@@ -372,6 +372,13 @@ def p6(ctx):
         var = [c for c in d.all_calls() if c.callee and "variants" in (c.callee.name or "")]
         ctx.check(len(ws) >= 2 and len(var) >= 1, "deriver-shape:" + C.fkey(d), "deriver enumerates group-compatible variants and compares weak shapes",
                   "the self-symmetry deriver no longer enumerates the group-compatible variants / compares weak shapes", where_of(d))
+        # no shortcut in front of the enumeration: the deriver has a second job besides growing the group (a variant that moves a
+        # class slot onto a redundant slot of the node proves that slot redundant), so "the class cannot have a symmetry" is no excuse
+        dv = mir.inline_view(crate, d, keep=tuple({c.callee.name for c in var}))
+        vbb = {c.bb for c in dv.calls if c.callee and "variants" in (c.callee.name or "") and not dv.blocks[c.bb]["cleanup"]}
+        ok = bool(vbb) and dv.must_pass([0], dv.return_blocks(), vbb)
+        ctx.check(ok, "deriver-unconditional:" + C.fkey(d), "every path through the deriver enumerates the group-compatible variants of the node",
+                  "the self-symmetry deriver can return before enumerating the node's group-compatible variants: the deduction 'this variant moves a class slot onto a redundant slot of the node, so the slot is redundant in the class' is skipped on that path, and whether the class shrinks then depends on the order in which the equations were asserted", where_of(d))
 
 
 @rule("P7", doc="orbit closure: redundancy of a slot reaches its whole orbit (stored set depends on Group::orbit, or non-restrictable generators are re-asserted)")
